@@ -442,8 +442,19 @@ func (h *Harness) buildTypes() {
 		fields := make([]reflect.StructField, 0, len(t.Fields)+1)
 		// a distinct marker field per type keeps struct types of equal shape distinct
 		fields = append(fields, reflect.StructField{Name: fmt.Sprintf("Zz_%d_%s", i, sanitize(t.Name)), Type: reflect.TypeOf(struct{}{})})
-		for _, f := range t.Fields {
-			fields = append(fields, reflect.StructField{Name: GoFieldName(f.Name), Type: anyT})
+		// every other type keeps the first half of its fields in an EMBEDDED struct: promoted fields are ordinary Go
+		// and must be found by the reflection strategy like direct ones
+		var emb []reflect.StructField
+		for j, f := range t.Fields {
+			sf := reflect.StructField{Name: GoFieldName(f.Name), Type: anyT}
+			if i%2 == 1 && len(t.Fields) >= 2 && j < len(t.Fields)/2 {
+				emb = append(emb, sf)
+			} else {
+				fields = append(fields, sf)
+			}
+		}
+		if len(emb) > 0 {
+			fields = append(fields, reflect.StructField{Name: "EmbeddedZz", Type: reflect.StructOf(emb), Anonymous: true})
 		}
 		h.rtypes[t.Name] = reflect.StructOf(fields)
 	}
